@@ -154,3 +154,92 @@ Example C10_example_before_fix :
   | _ => None
   end = None.
 Proof. vm_compute. reflexivity. Qed.
+
+(* ------------------------------------------------------------------------------------------------------------ *)
+(* RenderStack: which imports a value literal registers.
+   [local] of this file is no longer a free function: in the composed rendering (Model/RenderStack.v [value_frag]) it is
+   the table of C03's tracker after the packages of the literal's type prefixes were handed to it, in the order
+   Dumper.ValueLit asks for them ([value_regs]: a composite's type literal first, then its parts).
+   [vlit local sub t v] = [value_lit] of the repaired code;  [fx6 = true]: with fixes/C10-6-zero-struct-import.diff. *)
+Require Import Gengo.Model.RenderStack Gengo.Proofs.RenderStackTracker Gengo.Proofs.RenderStackLeaves Gengo.Proofs.RenderStack.
+
+(* none missing (both code versions): every package the literal mentions was registered — so the literal, and its
+   text, depend on the names of registered packages only, and a later rendering in a grown tracker gives the same text *)
+Theorem C10_literal_packages_registered :
+  forall (F : Type) (fzero : F -> bool) (ffmt gfmt : fkind -> F -> bytes) (fbig : F -> bool) (quote : bytes -> bytes)
+         (fx6 : bool) (v : goval F) (local : bytes -> bytes) (sub : bool) (t : gotype) (l : lit),
+    vlit fzero ffmt gfmt fbig quote local sub t v = Ok l ->
+    incl (lit_pkgs l) (value_regs fzero ffmt gfmt fbig quote fx6 sub t v).
+Proof. exact @value_lit_pkgs. Qed.
+Print Assumptions C10_literal_packages_registered.
+
+Theorem C10_value_leaf_stable :
+  forall (F : Type) (fzero : F -> bool) (ffmt gfmt : fkind -> F -> bytes) (fbig : F -> bool) (quote : bytes -> bytes)
+         (pre : list bytes) (std : option Tk.tracker) (self : bytes) (fx6 : bool)
+         (t : gotype) (v : goval F) (e : TL.renv) (txt : bytes) (e1 : TL.renv),
+    value_frag fzero ffmt gfmt fbig quote (pick_c03 pre std) self fx6 t v e = Ok (txt, e1) ->
+    e1 = add_all (pick_c03 pre std) (filter (is_foreign self) (value_regs fzero ffmt gfmt fbig quote fx6 false t v)) e /\
+    forall e2, ext e1 e2 -> value_frag fzero ffmt gfmt fbig quote (pick_c03 pre std) self fx6 t v e2 = Ok (txt, e2).
+Proof.
+  exact (fun F fzero ffmt gfmt fbig quote pre std self fx6 =>
+           value_frag_spec fzero ffmt gfmt fbig quote (pick_c03 pre std) (pick_total pre std) self fx6).
+Qed.
+Print Assumptions C10_value_leaf_stable.
+
+(* none unused (repaired code): exactly the foreign packages the literal mentions are registered.  Side condition
+   [keys_distinct]: in every map of the value the key texts are pairwise distinct (true of the keys of this file's
+   domain: key_text_inj) — two keys with one text share one entry of the Go table keyValues. *)
+Theorem C10_literal_packages_exact :
+  forall (F : Type) (fzero : F -> bool) (ffmt gfmt : fkind -> F -> bytes) (fbig : F -> bool) (quote : bytes -> bytes)
+         (self : bytes) (fx6 : bool) (local : bytes -> bytes) (t : gotype) (v : goval F) (l : lit),
+    fx6 = true ->
+    vlit fzero ffmt gfmt fbig quote local false t v = Ok l ->
+    keys_distinct fzero ffmt gfmt fbig quote local t v = true ->
+    forall p, In p (leaf_value_regs fzero ffmt gfmt fbig quote self fx6 t v) <-> In p (filter (is_foreign self) (lit_pkgs l)).
+Proof. exact @value_regs_exact. Qed.
+Print Assumptions C10_literal_packages_exact.
+
+(* History: before fixes/C10-6 the type literal of a struct field was asked for BEFORE finding out that the field renders
+   as nothing: Box{} with Box struct{ P image.Point; N int } imported "image" for the text Box{} (found by the composed
+   correspondence check; the generated file does not compile: imported and not used). *)
+Definition t_point : gotype := TNamed (bs "image") (bs "Point") (TStruct [(bs "X", TInt KInt); (bs "Y", TInt KInt)]).
+Definition t_box : gotype := TNamed (bs "c10types") (bs "Box") (TStruct [(bs "P", t_point); (bs "N", TInt KInt)]).
+Definition v_box_zero : goval unit := VStruct [VStruct [VInt 0; VInt 0]; VInt 0].
+
+Theorem C10_unused_import_refuted_before_fix :
+  let vl := vlit (fun _ : unit => true) (fun _ _ => []) (fun _ _ => []) (fun _ => false) (fun s => s) (fun _ => []) false t_box v_box_zero in
+  vl = Ok (LComposite (YName (bs "c10types") (bs "Box")) [])
+  /\ value_regs (fun _ : unit => true) (fun _ _ => []) (fun _ _ => []) (fun _ => false) (fun s => s) false false t_box v_box_zero
+     = [bs "c10types"; bs "image"]
+  /\ value_regs (fun _ : unit => true) (fun _ _ => []) (fun _ _ => []) (fun _ => false) (fun s => s) true false t_box v_box_zero
+     = [bs "c10types"].
+Proof. vm_compute. repeat split; reflexivity. Qed.
+Print Assumptions C10_unused_import_refuted_before_fix.
+
+(* Two models of Dumper.TypeLit: this file's [type_lit] / [print_ty local] (a tree with package paths, printed with a
+   free [local]) and C11's [TL.type_lit] (rawNamer, ParseTypeRef, the tracker).  On the universe of this file they
+   agree: C11's model, run on the view [gview t] of a type through C03's tracker, registers exactly the foreign
+   packages of this file's tree, left to right, and its text is — in that state and every later one — what this
+   file's printer gives with the tracker's names.  Side condition [ty_okb]: named types have a package path and an
+   identifier as name, and the two decimal printers agree on the array lengths that occur (decidable; see the Example). *)
+Require Import Gengo.Proofs.RenderStackTypes.
+
+Theorem C10_C11_type_literal_agree :
+  forall (pre : list bytes) (std : option Tk.tracker) (self : bytes) (cbq : bytes -> bool) (fe ft : bool)
+         (quote : bytes -> bytes) (t : gotype) (e : TL.renv),
+    ty_okb t = true -> Forall (fun n => n <> []) (map snd e) ->
+    let e1 := add_all (pick_c03 pre std) (filter (is_foreign self) (ty_pkgs (type_lit t))) e in
+    exists a, TL.type_lit (pick_c03 pre std) parse_c15 self cbq fe ft (gview t) e = Ok (a, e1) /\
+              forall e2, ext e1 e2 -> TL.print quote a = print_ty (local_of self e2) (type_lit t).
+Proof.
+  exact (fun pre std self cbq fe ft quote t e Hok Hn =>
+           type_lit_agree (pick_c03 pre std) (pick_total pre std)
+             (fun p e n H => Gengo.Proofs.Tracker.valid_name_nonempty n (proj1 (proj2 (proj2 (proj2 (proj2 (pick_spec pre std p e n H)))))))
+             self cbq fe ft quote t Hok e Hn).
+Qed.
+Print Assumptions C10_C11_type_literal_agree.
+
+Example C10_C11_side_condition :
+  forallb (fun n => bytes_eqb (TL.dec (N.of_nat n)) (dec_nat n)) (seq 0 2000) = true
+  /\ ty_okb (TMap TString (TArray 16 (TStruct [(bs "P", t_point); (bs "B", TPtr t_box)]))) = true.
+Proof. vm_compute. split; reflexivity. Qed.
